@@ -288,6 +288,10 @@ func run(p props.Prop) int {
 	wg.Wait()
 	wall := time.Since(t0).Seconds()
 
+	// A watchdog expiry depends on wall-clock time and is the one observation that is not a function
+	// of the tape: confirm it by re-running the case in a fresh process (twice the patience) and keep
+	// it only if it happens again.
+	a.viol, a.infra = confirmHangs(p, a.viol, a.infra, a)
 	known := loadKnown(*fKnown)
 	exit := 0
 	if infraExit || len(a.infra) > 0 {
@@ -345,6 +349,48 @@ func run(p props.Prop) int {
 	writeEvidence(p, a, wall, len(sigs), knownHit)
 	fmt.Printf("simcheck: %s %s: evaluations=%d distinct=%d violations(sigs)=%d unknown=%d wall=%.1fs\n", p.ID(), *fTier, a.evals, len(a.keys), len(sigs), unknown, wall)
 	return exit
+}
+
+func isHang(r *props.Result) bool {
+	if strings.Contains(r.Infra, "watchdog") {
+		return true
+	}
+	for _, v := range r.V {
+		if v.Class == "spin" {
+			return true
+		}
+	}
+	return false
+}
+
+func confirmHangs(p props.Prop, viol, infra []*props.Result, a *agg) ([]*props.Result, []*props.Result) {
+	recheck := func(r *props.Result) bool {
+		exe, _ := os.Executable()
+		cmd := exec.Command(exe, "-prop", p.ID(), "-tier", *fTier, "-seed", strconv.FormatUint(*fSeed, 10), "-only", strconv.Itoa(r.Index))
+		cmd.Env = append(os.Environ(), "VERIF_PATIENCE=3")
+		out, _ := cmd.Output()
+		var r2 props.Result
+		if json.Unmarshal(out, &r2) != nil {
+			return true
+		}
+		return isHang(&r2)
+	}
+	var v2, i2 []*props.Result
+	for _, r := range viol {
+		if isHang(r) && !recheck(r) {
+			a.stats["watchdog_expiry_not_reproduced"]++
+			continue
+		}
+		v2 = append(v2, r)
+	}
+	for _, r := range infra {
+		if isHang(r) && !recheck(r) {
+			a.stats["watchdog_expiry_not_reproduced"]++
+			continue
+		}
+		i2 = append(i2, r)
+	}
+	return v2, i2
 }
 
 func exit1(e *int) {
